@@ -39,6 +39,10 @@ WORKLOADS = {
     "expr": ("w_expr.cpp", ()),
     "scope_v2": ("w_scope.cpp", ()),
     "scope_v1": ("w_scope.cpp", ()),
+    "cancel_detach": ("w_cancel.cpp", ()),
+    "cancel_sor": ("w_cancel.cpp", ()),
+    "cancel_raw": ("w_cancel.cpp", ()),
+    "cancel_canary": ("w_cancel.cpp", ()),
 }
 
 PROPS = {
@@ -238,5 +242,28 @@ PROPS = {
                     "the terminate-on-error clause of spawn_detached."),
         real=["spawn_future (future<>, _spawn_future_op, drop/abandon/complete protocol)", "spawn_detached", "v1/v2 async_scope"],
         stub=["harness gates", "pthread layer, heap (usim)"],
+    ),
+    "C19": dict(
+        title="Completion vs cancellation races have one winner in the cancel wrappers",
+        batches=[
+            B("w_cancel.cpp", "cancel_detach", quick=7, thorough=120, oracles=["c19.", "c02.", "c04."] + RT_ALL),
+            B("w_cancel.cpp", "cancel_raw", quick=7, thorough=120, oracles=["c19.", "c02.", "c04."] + RT_ALL),
+            B("w_cancel.cpp", "cancel_sor", quick=5, thorough=60, oracles=["c19.", "c02.", "c04."] + RT_ALL),
+            B("w_cancel.cpp", "cancel_canary", quick=4, thorough=60, oracles=["c19."] + RT_ALL),
+        ],
+        level_text=("Seeded exploration of the four-party race {start() body, completion on a completer/opener thread, stop request on a stopper "
+                    "thread, destruction of the op state by the receiver inside its completion} over the real detach_on_cancel (gate child "
+                    "honouring stop or not), cancellable<> + try_complete with a harness nested operation (completion inside start, from "
+                    "another thread, or never; StopsEarly on/off; stop before start, racing, after completion), stop_on_request over the "
+                    "receiver's token plus 0-2 external tokens (inplace and third-party) with 1-3 concurrent stoppers, and canary/watcher/guard "
+                    "(destructor vs alive()/guard release on another thread). Oracles: exactly one completion and exactly one try_complete "
+                    "winner; the stop() hook runs at most once, only on a started, not-yet-completed op (or instead of start() in skip-start "
+                    "mode); detach_on_cancel delivers done before request_stop() returns and the abandoned child is finished and freed exactly "
+                    "once; stop_on_request completes only after a request and leaves no registration behind; alive()==true implies ~canary has "
+                    "not returned until the guard is released, false implies it had begun; no deadlock; shadow memory on the freed op states."),
+        level_note=("Trusted: usim stubs. Not driven yet: create_raw_sender / create_basic_sender (safe and unsafe callbacks) and lambda_op; "
+                    "cancellable is additionally exercised through the v2 mutex/event and async_pass workloads (C15, C16)."),
+        real=["detach_on_cancel", "cancellable + try_complete", "stop_on_request", "canary / watcher / guard", "inplace_stop_source"],
+        stub=["harness gates and the nested raw operation", "kit::sim_stop_source", "pthread layer, heap (usim)"],
     ),
 }
